@@ -215,6 +215,27 @@ Proof.
   destruct (args_ok (fs_params f) args); [eauto | congruence].
 Qed.
 
+Lemma args_ok_nonrel_for_rel ps : forall args i a,
+  nth_error ps i = Some PRel -> nth_error args i = Some a -> a <> ARel -> args_ok ps args <> None.
+Proof.
+  induction ps as [|p ps IH]; intros args i a Hp Ha Hn; [destruct i; discriminate|].
+  destruct args as [|a0 args]; [destruct i; discriminate|].
+  destruct i as [|i]; cbn [nth_error] in *.
+  - injection Hp as ->. injection Ha as ->. destruct a; [congruence | cbn; discriminate | cbn; discriminate].
+  - cbn [args_ok]. destruct (arg_ok p a0); [discriminate|]. eapply IH; eassumption.
+Qed.
+
+Theorem nonrelation_where_relation_rejected f args named i a :
+  nth_error (fs_params f) i = Some PRel -> nth_error args i = Some a -> a <> ARel ->
+  length args = length (fs_params f) ->
+  exists e, apply_fn f args named = AErr e.
+Proof.
+  intros Hp Ha Hn L. unfold apply_fn. destruct (first_unknown named (fs_named f)); [eauto|].
+  rewrite L, Nat.ltb_irrefl.
+  pose proof (args_ok_nonrel_for_rel _ _ _ _ Hp Ha Hn) as H.
+  destruct (args_ok (fs_params f) args); [eauto | congruence].
+Qed.
+
 (* a let-bound constant (or a parameter value) in a relation position is a scalar argument, hence rejected *)
 Theorem constant_where_relation_rejected sc n f args named i k :
   lookup (shadowed sc) ([], n) = [CRoot NValue] \/ lookup (shadowed sc) ([], n) = [CParam NValue] ->
@@ -268,7 +289,7 @@ Proof.
   apply in_app_or in H as [H|H]; [apply in_map_iff in H as [k [<- Hk]]; exact Hk|].
   apply in_app_or in H as [H|H]; [destruct (leqb n s_this_name); [destruct H as [<-|[]]; exact I | destruct H]|].
   apply in_app_or in H as [H|H].
-  { destruct (leqb n s_that_name); [|destruct H]. destruct (s_that sc); [destruct H as [<-|[]]; exact I | destruct H]. }
+  { destruct (leqb n s_that_name); [destruct H as [<-|[]]; exact I | destruct H]. }
   apply in_app_or in H as [H|H]; [apply frame_lookup_kinds in H; destruct c; tauto|].
   apply in_app_or in H as [H|H]; [apply that_lookup_kinds in H; destruct c; tauto|].
   apply in_app_or in H as [H|H]; apply in_map_iff in H as [k [<- Hk]]; exact Hk.
@@ -277,24 +298,77 @@ Qed.
 Lemma existsb_In_false {A} (f : A -> bool) l x : existsb f l = false -> In x l -> f x = false.
 Proof. intros H Hi. destruct (f x) eqn:E; [|reflexivity]. assert (existsb f l = true) by (apply existsb_exists; eauto). congruence. Qed.
 
-Theorem no_silent_passthrough_partial sc n :
-  names_module_or_table sc n = false -> lower_ref sc ([], n) <> OPassthrough.
+(* a candidate `that` itself only comes from the bare name `that` *)
+Lemma lookup_cframe sc id t : In (CFrame t) (lookup sc id) ->
+  fst id = [] /\ (if t then leqb (snd id) s_that_name else leqb (snd id) s_this_name) = true.
 Proof.
-  unfold names_module_or_table. intro H. apply orb_false_iff in H as [H H3]. apply orb_false_iff in H as [H1 H2].
-  unfold lower_ref. destruct (resolve sc ([], n)) as [c|i|e] eqn:R; [| |discriminate].
-  - unfold resolve in R. destruct (resolve_ok_unique (lookup sc ([], n)) (infer_candidates sc ([], n))) as [U _].
-    specialize (U c R). assert (In c (lookup sc ([], n))) as Hin by (rewrite U; left; reflexivity).
-    apply lookup_bare_nonframe in Hin.
-    destruct c as [k|k|k| | | |]; try discriminate.
-    + pose proof (existsb_In_false _ _ _ H1 Hin). destruct k; cbn in *; congruence.
-    + pose proof (existsb_In_false _ _ _ H3 Hin). destruct k; cbn in *; congruence.
-    + pose proof (existsb_In_false _ _ _ H2 Hin). destruct k; cbn in *; congruence.
-  - destruct i as [t i|]; [discriminate|].
-    unfold resolve in R. destruct (resolve_ok_unique (lookup sc ([], n)) (infer_candidates sc ([], n))) as [_ U].
-    destruct (U _ R) as [_ E]. unfold infer_candidates in E. cbn [fst] in E.
-    assert (In ITable (map (fun p => IInput (fst p) (snd p)) (frame_infer false (s_this sc) None ++ that_infer sc None))) as Hin
-      by (rewrite E; left; reflexivity).
-    apply in_map_iff in Hin as [p [Hp _]]. discriminate.
+  unfold lookup. destruct id as [q n]. cbn [fst snd]. destruct q as [|q rest]; intro H.
+  - split; [reflexivity|].
+    apply in_app_or in H as [H|H]; [apply in_map_iff in H as [k [E _]]; discriminate|].
+    apply in_app_or in H as [H|H].
+    { destruct (leqb n s_this_name) eqn:E; [destruct H as [H|[]]; injection H as <-; (reflexivity || exact E) | destruct H]. }
+    apply in_app_or in H as [H|H].
+    { destruct (leqb n s_that_name) eqn:E; [destruct H as [H|[]]; injection H as <-; (reflexivity || exact E) | destruct H]. }
+    apply in_app_or in H as [H|H]; [apply frame_lookup_kinds in H; destruct H|].
+    apply in_app_or in H as [H|H]; [apply that_lookup_kinds in H; destruct H|].
+    apply in_app_or in H as [H|H]; apply in_map_iff in H as [k [E _]]; discriminate.
+  - exfalso.
+    apply in_app_or in H as [H|H].
+    { destruct (leqb q s_this_name); [apply frame_lookup_kinds in H; destruct H | destruct H]. }
+    apply in_app_or in H as [H|H].
+    { destruct (leqb q s_that_name); [apply that_lookup_kinds in H; destruct H | destruct H]. }
+    apply in_app_or in H as [H|H].
+    { destruct (leqb q s_std_name); [apply in_map_iff in H as [k [E _]]; discriminate | destruct H]. }
+    apply in_app_or in H as [H|H].
+    { destruct (leqb q s_param_name); [|destruct H]. destruct rest; [apply in_map_iff in H as [k [E _]]; discriminate | destruct H]. }
+    apply in_app_or in H as [H|H]; [apply frame_lookup_kinds in H; destruct H|].
+    apply in_app_or in H as [H|H]; [apply that_lookup_kinds in H; destruct H|].
+    apply in_map_iff in H as [k [E _]]; discriminate.
+Qed.
+
+(* Since a131b2a the ONLY reference that still reaches SQL through lower_expr's unresolved-ident fallback is the bare
+   name `that` outside a join condition (the empty shadow module; finding C10-F2) *)
+Theorem passthrough_only_bare_that sc id :
+  lower_ref sc id = OPassthrough -> fst id = [] /\ leqb (snd id) s_that_name = true /\ s_that sc = None.
+Proof.
+  unfold lower_ref, lower_ref_in. destruct (resolve sc id) as [c|i|e] eqn:R; [| |discriminate].
+  - unfold resolve in R. destruct (resolve_ok_unique (lookup sc id) (infer_candidates sc id)) as [U _].
+    specialize (U c R). assert (In c (lookup sc id)) as Hin by (rewrite U; left; reflexivity).
+    destruct c as [k|k|k| | | |t]; try discriminate; try (destruct k; discriminate).
+    destruct t; [|discriminate].
+    apply lookup_cframe in Hin as [Hq Hn]. destruct (s_that sc); [discriminate|]. auto.
+  - destruct i; discriminate.
+Qed.
+
+Theorem no_silent_passthrough_partial sc n :
+  leqb n s_that_name = false \/ s_that sc <> None -> lower_ref sc ([], n) <> OPassthrough.
+Proof.
+  intros H E. apply passthrough_only_bare_that in E as [_ [E1 E2]]. cbn [snd] in E1.
+  destruct H as [H|H]; congruence.
+Qed.
+
+(* a131b2a at full strength: a name that denotes a module or a relation variable is never a value -- the reference is
+   an error (not a value / ambiguous with something else), whatever the scope *)
+Lemma lookup_has_modtab sc n : names_module_or_table sc n = true ->
+  exists c k, In c (lookup sc ([], n)) /\ (c = CRoot k \/ c = CParam k \/ c = CStd k) /\ is_modtab k = true.
+Proof.
+  unfold names_module_or_table, lookup. cbn [fst snd]. intro H.
+  apply orb_true_iff in H as [H|H]; [apply orb_true_iff in H as [H|H]|];
+    apply existsb_exists in H as [k [Hin Hk]].
+  - exists (CRoot k), k. split; [|auto]. apply in_or_app. left. apply in_map. exact Hin.
+  - exists (CParam k), k. split; [|auto]. do 5 (apply in_or_app; right). apply in_or_app. left. apply in_map. exact Hin.
+  - exists (CStd k), k. split; [|auto]. do 6 (apply in_or_app; right). apply in_map. exact Hin.
+Qed.
+
+Theorem module_or_relation_name_is_not_a_value sc n :
+  names_module_or_table sc n = true ->
+  lower_ref sc ([], n) = OErr ENotAValue \/ lower_ref sc ([], n) = OErr EAmbiguous.
+Proof.
+  intro H. destruct (lookup_has_modtab sc n H) as [c [k [Hin [Hc Hk]]]].
+  unfold lower_ref, lower_ref_in, resolve.
+  destruct (lookup sc ([], n)) as [|c1 [|c2 l]]; [destruct Hin| |right; reflexivity].
+  destruct Hin as [<-|[]]. left. cbn [resolve_from].
+  destruct Hc as [->|[->| ->]]; destruct k; try discriminate Hk; reflexivity.
 Qed.
 
 (* a closed frame, a name that is in no frame: the only way not to be rejected is to denote something else *)
@@ -332,7 +406,7 @@ Proof.
   apply in_app_or in H as [H|H]; [apply in_map_iff in H as [k [<- _]]; discriminate|].
   apply in_app_or in H as [H|H]; [destruct (leqb n s_this_name); [destruct H as [<-|[]]; discriminate | destruct H]|].
   apply in_app_or in H as [H|H].
-  { destruct (leqb n s_that_name); [|destruct H]. destruct (s_that sc); [destruct H as [<-|[]]; discriminate | destruct H]. }
+  { destruct (leqb n s_that_name); [destruct H as [<-|[]]; discriminate | destruct H]. }
   apply in_app_or in H as [H|H]; [left; eapply frame_lookup_col; eassumption|].
   apply in_app_or in H as [H|H].
   { right. unfold that_lookup in H. destruct (s_that sc) as [f|]; [eapply frame_lookup_col; eassumption | destruct H]. }
@@ -346,11 +420,12 @@ Theorem closed_frame_outcome sc n :
   | _ => True
   end.
 Proof.
-  intros Hc Hf. unfold lower_ref.
+  intros Hc Hf. unfold lower_ref, lower_ref_in.
   destruct (resolve sc ([], n)) as [c|i|e] eqn:R; [| |exact I].
   - unfold resolve in R. destruct (resolve_ok_unique (lookup sc ([], n)) (infer_candidates sc ([], n))) as [U _].
     specialize (U c R). assert (In c (lookup sc ([], n))) as Hin by (rewrite U; left; reflexivity).
     destruct c as [k|k|k|t p|t i p|t i|t]; try (destruct k; exact I); try exact I;
+      try (destruct t; [destruct (s_that sc)|]; exact I);
       (pose proof (lookup_bare_col sc n _ Hin eq_refl); congruence).
   - (* inferred: impossible in a closed scope *)
     destruct i as [t i|]; [|exact I]. exfalso.
@@ -359,4 +434,62 @@ Proof.
     unfold scope_closed in Hc. apply andb_true_iff in Hc as [Hc1 Hc2]. unfold frame_closed in *.
     unfold that_infer, frame_infer in E. rewrite (wild_inputs_nil false None _ 0%nat Hc1) in E.
     destruct (s_that sc) as [f|]; [rewrite (wild_inputs_nil true None _ 0%nat Hc2) in E|]; discriminate.
+Qed.
+
+(* ------------------------------------------------------------------ declarations inside modules (d92afac) *)
+
+(* the declaration's own module is the first place a table reference is looked up *)
+Lemma rel_enclosing_sibling mods sc m cur q n c :
+  mlookup mods sc ((m :: cur) ++ q, n) = [c] -> rel_enclosing mods sc (m :: cur) (q, n) = Some c.
+Proof. intro H. cbn [rel_enclosing fst snd]. rewrite H. reflexivity. Qed.
+
+(* whatever the enclosing-modules step finds that is not a relation variable -- a sibling constant, function or
+   module -- makes the call an error; before d92afac the same reference was a database table *)
+Theorem enclosing_nonrelation_where_relation_rejected ms id c f args named i k :
+  rel_enclosing (ms_mods ms) (shadowed (ms_scope ms)) (ms_cur ms) id = Some c ->
+  arg_kind_of c <> ARel ->
+  rel_arg_kind_m ms id = Some k ->
+  nth_error (fs_params f) i = Some PRel -> nth_error args i = Some k ->
+  length args = length (fs_params f) ->
+  exists e, apply_fn f args named = AErr e.
+Proof.
+  intros He Hc K Hp Ha L. unfold rel_arg_kind_m in K. rewrite He in K. injection K as <-.
+  eapply nonrelation_where_relation_rejected; eassumption.
+Qed.
+
+Corollary sibling_constant_where_relation_rejected ms m cur n f args named i k :
+  ms_cur ms = m :: cur ->
+  mlookup (ms_mods ms) (shadowed (ms_scope ms)) (m :: cur, n) = [CRoot NValue] ->
+  rel_arg_kind_m ms ([], n) = Some k ->
+  nth_error (fs_params f) i = Some PRel -> nth_error args i = Some k ->
+  length args = length (fs_params f) ->
+  exists e, apply_fn f args named = AErr e.
+Proof.
+  intros Hcur Hl. eapply enclosing_nonrelation_where_relation_rejected.
+  - rewrite Hcur. apply rel_enclosing_sibling. rewrite app_nil_r. exact Hl.
+  - discriminate.
+Qed.
+
+(* a sibling relation variable is found, and is a relation *)
+Theorem sibling_table_is_a_relation ms m cur n :
+  ms_cur ms = m :: cur ->
+  mlookup (ms_mods ms) (shadowed (ms_scope ms)) (m :: cur, n) = [CRoot NTable] ->
+  rel_arg_kind_m ms ([], n) = Some ARel.
+Proof.
+  intros Hcur Hl. unfold rel_arg_kind_m. rewrite Hcur.
+  rewrite (rel_enclosing_sibling _ _ m cur [] n (CRoot NTable)); [reflexivity|]. rewrite app_nil_r. exact Hl.
+Qed.
+
+(* outside modules nothing changed *)
+Theorem rel_arg_kind_m_at_root ms id : ms_cur ms = [] -> rel_arg_kind_m ms id = rel_arg_kind_m_before_d92afac ms id.
+Proof. intro H. unfold rel_arg_kind_m, rel_arg_kind_m_before_d92afac. rewrite H. reflexivity. Qed.
+
+(* value positions: the first attempt that resolves wins, the declaration's own module first *)
+Theorem sibling_shadows_in_value_position ms m cur id r :
+  ms_cur ms = m :: cur ->
+  resolve_core_m (ms_mods ms) (ms_scope ms) ((m :: cur) ++ fst id, snd id) = r ->
+  (forall e, r <> RErr e) -> resolve_m ms id = r.
+Proof.
+  intros Hcur Hr Hne. unfold resolve_m. rewrite Hcur. cbn [resolve_enclosing]. rewrite Hr.
+  destruct r; try reflexivity. exfalso. eapply Hne. reflexivity.
 Qed.
